@@ -131,3 +131,47 @@ def replay(ob, contract, seed=0):
         return dict(confirmed=bool(same), input=inp,
                     text="verifier's path returns %r; the real call %s" % (want, "returned %r" % (got,) if outcome[0] == "returned" else outcome))
     return dict(confirmed=None, input=inp, text="real call: %r (no prediction recorded for this kind of obligation)" % (outcome,))
+
+
+def rerun(function, input_text):
+    """re-execute a recorded replay input on the real code (./check <ID> --replay <file>)"""
+    file, qualname = function.split(":", 1)
+
+    def undo(v):
+        if isinstance(v, str) and v.startswith("bytes:"):
+            return bytes.fromhex(v[6:])
+        if isinstance(v, list):
+            return [undo(x) for x in v]
+        if isinstance(v, dict):
+            return {k: undo(x) for k, x in v.items()}
+        return v
+    args = undo(json.loads(input_text))
+    mod, owner, fn = native_target(file, qualname)
+    name = qualname.split(".")[-1]
+    logging.disable(logging.CRITICAL)
+    if owner is None:
+        call = lambda: fn(**args)                                   # noqa: E731
+    elif name == "__init__":
+        call = lambda: owner(**args)                                # noqa: E731
+    elif isinstance(owner.__dict__.get(name), (classmethod, staticmethod)):
+        call = lambda: getattr(owner, name)(**args)                 # noqa: E731
+    else:
+        inst = owner.__new__(owner)
+        for k, dv in (("_targets", []), ("_elements", {})):
+            if hasattr(owner, "_parse"):
+                setattr(inst, k, type(dv)())
+        inst.logger = logging.getLogger("replay")
+        call = lambda: getattr(inst, name)(**args)                  # noqa: E731
+    old = signal.signal(signal.SIGALRM, _alarm)
+    signal.alarm(5)
+    try:
+        try:
+            out = ("returned", call())
+        except _Timeout:
+            out = ("did not finish within 5 s",)
+        except BaseException as e:      # noqa
+            out = ("raised", type(e).__name__, str(e)[:200])
+    finally:
+        signal.alarm(0)
+        signal.signal(signal.SIGALRM, old)
+    return out
